@@ -54,7 +54,7 @@ instance instCommRing : CommRing GRat where
   nsmul := nsmulRec
   zsmul := zsmulRec
 
-theorem conjLaws : Ptn.Ham.ConjLaws GRat where
+theorem conjLaws : Ptn.Ham.Gauge.ConjLaws GRat where
   add a b := by apply ext' <;> simp <;> ring
   mul a b := by apply ext' <;> simp <;> ring
   invol a := by apply ext' <;> simp
